@@ -93,5 +93,28 @@ theorem lazy_clone_clones_once_when_consumed (cfg : Cfg) (w : World) (ms : Refin
       (World.step cfg (.push u (.lazyRef v i dp)) w).2.notUb :=
   RefineMulti.lazy_push_refines cfg w ms h v u i dp hvu a au hv hu
 
+/-- **… whichever way it is consumed - `insert` at any position, the very end included**: `u.insert(j, v.at(i).lazy_clone())`
+leads to a world in which `u` has one more item - a fresh identity, the one clone made - at position `j`, the items from `j`
+on moved up by one (`List.insertIdx`), and `v` and every other vector are as they were; or, when `i` or `j` is out of
+range, the element types differ or `u` has no room, to the same abstract state. In particular `insert(len, ..)` is not a
+plain append of the source's bytes: the item that arrives is never the identity that sits in `v`. -/
+theorem lazy_clone_inserted_clones_once (cfg : Cfg) (w : World) (ms : RefineMulti.MSpec) (h : RefineMulti.MRel w ms)
+    (v u i j dp : Nat) (hvu : v ≠ u) (a au : RefineMulti.AVec)
+    (hv : ms.vecs[v]? = some (some a)) (hu : ms.vecs[u]? = some (some au)) :
+    ∃ ms', RefineMulti.LazyInsStep ms u i j a au ms' ∧
+      RefineMulti.MRel (World.step cfg (.insert u j (.lazyRef v i dp)) w).1 ms' ∧
+      (World.step cfg (.insert u j (.lazyRef v i dp)) w).2.notUb :=
+  RefineMulti.lazy_insert_refines cfg w ms h v u i j dp hvu a au hv hu
+
+/-- the inserted item is new: after a successful lazy insert no identity occurs twice among all vectors (so the clone is
+not the source element under another name) -/
+theorem lazy_insert_makes_a_new_identity (cfg : Cfg) (w : World) (ms : RefineMulti.MSpec) (h : RefineMulti.MRel w ms)
+    (v u i j dp : Nat) (hvu : v ≠ u) (a au : RefineMulti.AVec)
+    (hv : ms.vecs[v]? = some (some a)) (hu : ms.vecs[u]? = some (some au)) :
+    ∃ ms', RefineMulti.LazyInsStep ms u i j a au ms' ∧ ms'.allItems.Nodup ∧ ∀ id ∈ ms'.allItems, id < ms'.next := by
+  obtain ⟨ms', hs, hrel, _⟩ := RefineMulti.lazy_insert_refines cfg w ms h v u i j dp hvu a au hv hu
+  obtain ⟨hnd, hlt, _, _⟩ := RefineMulti.mrel_unique _ ms' hrel
+  exact ⟨ms', hs, hnd, hlt⟩
+
 end C09
 end AnyVec
